@@ -145,6 +145,17 @@ CLAIMS["C19"] = dict(
          "containers, long texts) go through pycfmodel.parse in a worker under RLIMIT_AS and a wall clock: only a model or ValidationError is admissible.",
     note=TRUST + "partial: stack depth, memory, wall time and process termination are runtime behaviour, exercised by the sandbox, not proved; pydantic-core's own rejection paths are trusted.")
 
+CLAIMS["C03"] = dict(
+    technique="Lean 4 proof (closure of resolution under a predicate: no function object remains at any depth; idempotence on stable values) + direct oracles and second-pass correspondence on the implementation",
+    text="Lemmas/ResolveClosed proves, by mutual structural induction over the resolver model, that any predicate closed under the "
+         "sixteen functions' outputs holds of every resolved value; C03_concrete instantiates it with NoFn (no single-member object named "
+         "like a function anywhere), under the stated hypotheses that parameter values and mapping leaves contain no function objects "
+         "and plain objects have no function-named key. C03_idem proves resolve v = v for every stable value (text in normal form, no "
+         "AWS::NoValue members), C03_text_stable characterises normal-form text, C03_fixpoint lifts it to the second pass. The check walks "
+         "the resolved pydantic object graph for FunctionDict instances / function-shaped dicts, requires every condition to be a bool, "
+         "requires resolve(resolve(m)) == resolve(m), and runs the model on the dump of the resolved resources (must be returned unchanged).",
+    note=TRUST + "partial: idempotence is proved for stable values only; text assembled by a function or fetched from SSM that is itself an SSM reference or a differently-cased boolean word is a recorded known finding (not a fixed point in the code either).")
+
 DESIGN_REF = {k: f"DESIGN.md §5 {k}" for k in CLAIMS}
 
 
